@@ -91,6 +91,7 @@ func (i *Interpreter) Interpret(statements []ast.Stmt, isRepl bool) []interface{
 }
 
 func (i *Interpreter) eval(expr ast.Expr, env *environment.Environment, isRepl bool) (interface{}, *ControlFlowSignal) {
+	verifTick()
 	// fmt.Printf("%T\n", expr)
 	switch e := expr.(type) {
 	case *ast.PropertyAssignment:
